@@ -21,7 +21,7 @@ func isNs(c byte) bool {
 
 func isProp(c byte) bool { return isNs(c) || c == '.' || c == '\\' || c == '/' }
 
-func isMod(c byte) bool { return c == '"' || c == '^' || c == ',' || c == '*' }
+func isMod(c byte) bool { return c == '^' || c == '*' }
 
 func isWs(c byte) bool { return c == ' ' || c == '\n' || c == '\t' || c == '\r' }
 
